@@ -26,7 +26,7 @@ CHECKS["C07"] = {
              "expected_value} are executed symbolically on the current source for q, qtilde, q0 x normal, clipped_normal. The formulae of the statement "
              "(CLsb, CLb for both qtilde branches, agreement at the seam, CLs ratio, expected values Phi(-N-sqrt qA)/Phi(-N), 0<=CLsb<=CLb<=1, 0<=CLs<=1, "
              "band monotone, clipped variant never below the cutoff, observed statistic never in the NaN branch) are composite postconditions over all "
-             "q >= 0, q_A > 0 discharged by z3, plus the wiring of the statistic/Asimov calls."),
+             "q >= 0, q_A > 0 discharged by z3, plus the wiring of the statistic/Asimov calls. Every backend: the structural wrapper methods of numpy / jax / pytorch / tensorflow (where, clip, tile, gather, boolean_mask, sum / product, ones / zeros, power, sqrt, divide, log, exp, erf, stack, concatenate, reshape, ravel, einsum, transpose, percentile, astensor, tolist, conditional) are executed symbolically and proved to be the abstract tensor operations these contracts assume, with the library functions replaced by their documented meaning (contracts/BK_backend_ops.py)."),
     "note": ("Phi and sqrt uninterpreted with ground-instantiated axioms (monotone, range, symmetry; sqrt^2); band monotonicity additionally uses "
              "log-concavity of Phi as a trusted axiom; 'representable tails' read as Phi total and exact; the library normal cdf itself is C04"),
     "technique": "contract-based deductive verification: symbolic execution of the real AST, composite postconditions discharged by z3 (NRA with axiomatised Phi/sqrt), native stub replay",
@@ -67,7 +67,7 @@ CHECKS["C19"] = {
              "is current AFTER the requested switch (get_backend modelled per number of earlier set_backend calls); a repeated --optconf key takes its "
              "last value; `inspect` is additionally executed on a concrete-structured workspace (channels listed against their sort order, shared "
              "modifier names, two measurements) through the real Workspace / Model code and every table entry of the dumped object and the printed "
-             "channel table is compared with what the library reports."),
+             "channel table is compared with what the library reports. Any option a command hands to Workspace.model besides measurement and patches equals the library default read from pdf.py; the xml2json mount option type hands on the host part converted and the mount part as written."),
     "note": ("click's own parsing is assumed; loops over option tuples are executed with two generic elements (dataflow abstraction); the "
              "library calls are uninterpreted here (their values are C05-C09/C16-C18); options_from_eqdelimstring string handling not covered"),
     "technique": "contract-based deductive verification: symbolic execution of the real command bodies, forwarding/dataflow obligations over logged uninterpreted calls; CliRunner replay",
@@ -82,7 +82,7 @@ CHECKS["C17"] = {
              "invariant's base case found the table seeded with the keys 'name'/'values', repaired by a fix: commit). __getitem__ under the "
              "invariant: returns patch j iff the key is its name or value tuple (list or tuple), else InvalidPatchLookup. verify: loop invariant, "
              "returns normally iff every listed digest matches, else PatchSetVerificationError. apply: verify first, then "
-             "Workspace(self[key].apply(spec)) without in_place. Patch properties; utils.digest wiring and ValueError paths."),
+             "Workspace(self[key].apply(spec)) without in_place. Patch properties; utils.digest wiring and ValueError paths. The Workspace constructor through which apply returns its result shares nothing with its argument (dict or Workspace)."),
     "note": ("schema validity is a precondition (names are strings, values numeric tuples); jsonpatch.apply non-mutating and json.dumps(sort_keys)/"
              "hash properties (order insensitivity, value sensitivity) are external assumptions"),
     "technique": "contract-based deductive verification: loop invariants over z3 arrays (map representation invariant with ghost witness), z3; native replay battery",
@@ -98,7 +98,7 @@ CHECKS["C03"] = {
              "reference implementations are proved equal to the same specification path by path, hence fast == slow everywhere. code4's "
              "coefficients are proved to solve the six boundary conditions (value, first, second derivative at +-alpha0) rather than compared "
              "with a re-typed inverse matrix; spec lemmas: anchors at 0/+-1, continuity, C1/C2 for 4p and 4, uniqueness of the code-4 polynomial. "
-             "This check found code 2 discontinuous at +-1 and fast != slow below -1 (repaired by a fix: commit)."),
+             "This check found code 2 discontinuous at +-1 and fast != slow below -1 (repaired by a fix: commit). Every backend: the structural wrapper methods of numpy / jax / pytorch / tensorflow (where, clip, tile, gather, boolean_mask, sum / product, ones / zeros, power, sqrt, divide, log, exp, erf, stack, concatenate, reshape, ravel, einsum, transpose, percentile, astensor, tolist, conditional) are executed symbolically and proved to be the abstract tensor operations these contracts assume, with the library functions replaced by their documented meaning (contracts/BK_backend_ops.py)."),
     "note": ("reals for floats (floating-point neighbours of breakpoints only as reals); pow/log uninterpreted with pow(x,0)=1, pow(x,1)=x, "
              "positivity; alpha0 = 1; tensor op contracts assumed (validated against numpy); _slow_interpolator_looper indexing bounded (shapes <= 2)"),
     "technique": "contract-based deductive verification: symbolic execution of the real tensor code under pointwise-tensor op contracts, class invariant + z3 (NRA); native replay of counterexamples",
@@ -119,7 +119,7 @@ CHECKS["C01"] = {
              "parameter the modifier is named after (through the interpolator contract for normsys / histosys, the index field of the same batch row "
              "for the bin-wise types), neutral element); by-sample rate == prod_k prod_m factor_k * (nominal + sum_m delta), clipped only where the "
              "sample exists; reported rate == sum over samples, then the bin clip (reductions over symbolic extents: congruence + split rules). "
-             "That the constructors establish the invariants is what the skeleton tier executes."),
+             "That the constructors establish the invariants is what the skeleton tier executes. Every backend: the structural wrapper methods of numpy / jax / pytorch / tensorflow (where, clip, tile, gather, boolean_mask, sum / product, ones / zeros, power, sqrt, divide, log, exp, erf, stack, concatenate, reshape, ravel, einsum, transpose, percentile, astensor, tolist, conditional) are executed symbolically and proved to be the abstract tensor operations these contracts assume, with the library functions replaced by their documented meaning (contracts/BK_backend_ops.py)."),
     "note": ("interpolators replaced by their C03 contract; index/mask computations that are fully concrete are run by CPython with the numpy backend "
              "of the tree under test; other backends only through op contracts; the structure is bounded (stated), the numbers are not"),
     "technique": "contract-based deductive verification: symbolic execution of the real constructors and evaluators per structure skeleton, z3 equality with an independent oracle; unbounded-shape proofs of apply / get / expected_data under class invariants; native replay",
@@ -133,7 +133,7 @@ CHECKS["C02"] = {
              "Poisson(tau|gamma tau), tau=(nom/unc)^2 for shapesys), each paired with the auxiliary datum at the reported position; main + "
              "constraint == full; pdf == exp(logpdf); config.auxdata is the nominal auxiliary data in the reported order; overrides of "
              "auxdata/sigmas/factors appear verbatim. Found and repaired (fix: commit): constraint_logpdf/expected_auxdata raised IndexError on "
-             "models without constrained parameters. " + _PIPE + ". Tier P (unbounded number of constrained components N, parameters, auxiliary data, batch rows): gaussian_ / poisson_constraint_combined.make_pdf + logpdf are executed on the abstract state of their class invariants and the value is proved to be ONE reduction over the components whose n-th term is logN(aux[d(n)] | par[k(n)], sigma(n)) resp. logPois(aux[d(n)] | par[k(n)] * factor(n)); no pdf object without constrained components; _TensorViewer.stitch / split for any two-part partition of symbolic sizes under the permutation invariant (every datum lands at the position its index names; split reads each part's own indices), with and without leading axes."),
+             "models without constrained parameters. " + _PIPE + ". Tier P (unbounded number of constrained components N, parameters, auxiliary data, batch rows): gaussian_ / poisson_constraint_combined.make_pdf + logpdf are executed on the abstract state of their class invariants and the value is proved to be ONE reduction over the components whose n-th term is logN(aux[d(n)] | par[k(n)], sigma(n)) resp. logPois(aux[d(n)] | par[k(n)] * factor(n)); no pdf object without constrained components; _TensorViewer.stitch / split for any two-part partition of symbolic sizes under the permutation invariant (every datum lands at the position its index names; split reads each part's own indices), with and without leading axes. Every backend: the structural wrapper methods of numpy / jax / pytorch / tensorflow (where, clip, tile, gather, boolean_mask, sum / product, ones / zeros, power, sqrt, divide, log, exp, erf, stack, concatenate, reshape, ravel, einsum, transpose, percentile, astensor, tolist, conditional) are executed symbolically and proved to be the abstract tensor operations these contracts assume, with the library functions replaced by their documented meaning (contracts/BK_backend_ops.py)."),
     "note": "density formulas are the C04 specification functions (xlogy, lgamma, log, sqrt uninterpreted with axioms); structure bounded, numbers unbounded",
     "technique": "contract-based deductive verification: symbolic execution of the real likelihood pipeline per structure skeleton, z3 equality with the template oracle; native replay",
 }
@@ -142,7 +142,7 @@ CHECKS["C10"] = {
     "text": ("Batched models (batch size 2 in the quick tier; 1, 2, 3 in the thorough tier) are executed symbolically on structure skeletons with "
              "DISTINCT symbolic parameter and data rows: every row of expected_data / expected_actualdata / logpdf is proved equal to the row-local "
              "oracle evaluated on that row alone (== the unbatched model by C01/C02), the batch axis is leading. Sample shapes are checked natively "
-             "(bounded, labelled). " + _PIPE + "."),
+             "(bounded, labelled). " + _PIPE + ". Every backend: the structural wrapper methods of numpy / jax / pytorch / tensorflow (where, clip, tile, gather, boolean_mask, sum / product, ones / zeros, power, sqrt, divide, log, exp, erf, stack, concatenate, reshape, ravel, einsum, transpose, percentile, astensor, tolist, conditional) are executed symbolically and proved to be the abstract tensor operations these contracts assume, with the library functions replaced by their documented meaning (contracts/BK_backend_ops.py)."),
     "note": "samplers are external (shape only, bounded); batch sizes bounded as stated; numbers unbounded",
     "technique": "contract-based deductive verification: symbolic execution of the batched pipeline per structure skeleton with distinct symbolic rows, z3; native replay",
 }
@@ -190,7 +190,7 @@ CHECKS["C14"] = {
              "loops over a sequence of symbolic length being read as the comprehensions they are, independently of local names - entry i of either distribution is teststat(poi_test, sample_i, pdf, init, bounds, fixed); pvalues gives the two tail fractions "
              "and their ratio; teststatistic is the statistic of the observed data. NOT decided: the sampling distributions themselves (integer "
              "counts, mean = variance = rate, auxiliary values ~ constraint terms) and the agreement of toy estimates with exact tails - statistical "
-             "statements about external samplers."),
+             "statements about external samplers. pyhf's own distribution objects of numpy / jax (_BasicPoisson / _BasicNormal): sample(shape) is one library draw with the object's rate / loc, scale and size shape + parameter shape."),
     "note": "samplers, make_pdf and percentile uninterpreted; fit and statistic functions by their C05/C06 contracts; R1-R3 reduction rules trusted",
     "technique": "contract-based deductive verification: symbolic sums with congruence/bound rules, toy loops of symbolic length read as comprehensions (append-loop rule), z3; native replay with stubs",
 }
@@ -222,7 +222,7 @@ CHECKS["C13"] = {
              "constr_nll, pars); jax.value_and_grad(_final_objective, argnums=0) jitted with static_argnums (3..7)); wrap_objective forwards its "
              "pieces positionally; _final_objective puts fixed values and free parameters at their own positions (bounded: <= 3 parameters). "
              "NOT decided: that the AD engines return the true derivative at every point, regime and breakpoint (external engines, floating point); "
-             "the C1 continuity of codes 4 / 4p at their breakpoints is a lemma proved in C03."),
+             "the C1 continuity of codes 4 / 4p at their breakpoints is a lemma proved in C03. Every backend: the structural wrapper methods of numpy / jax / pytorch / tensorflow (where, clip, tile, gather, boolean_mask, sum / product, ones / zeros, power, sqrt, divide, log, exp, erf, stack, concatenate, reshape, ravel, einsum, transpose, percentile, astensor, tolist, conditional) are executed symbolically and proved to be the abstract tensor operations these contracts assume, with the library functions replaced by their documented meaning (contracts/BK_backend_ops.py)."),
     "note": "torch / tensorflow / jax automatic differentiation is external and assumed correct; replay compares with finite differences (testing-grade, only as arbiter)",
     "technique": "contract-based deductive verification: symbolic execution of the gradient wrappers with uninterpreted AD operators, forwarding obligations; finite-difference native replay",
 }
@@ -257,7 +257,7 @@ CHECKS["C16"] = {
              "under channel merging); prune removes exactly the named items; rename is a relabelling (POI and parameter configurations along) undone by "
              "the inverse renaming; sorted keeps the content, is idempotent and equal for permuted inputs; every result is a new Workspace validated "
              "against workspace.json, operands are unmodified and share no mutable state with it. Likelihood clauses are derived via C01 / C02 and "
-             "compared natively in the replay only."),
+             "compared natively in the replay only. Workspace(spec) owns its content for a dict AND for a Workspace argument: same content, no shared mutable container."),
     "note": "structure (names, list lengths, selections, permutations) bounded by the listed skeletons; schema verdict assumed; deepcopy modelled",
     "technique": "contract-based deductive verification: symbolic execution of the real workspace operations on skeletons with symbolic content, both branches of every content comparison, z3-discharged postconditions against specification functions of the statement; native replay incl. likelihood comparison",
 }
@@ -275,7 +275,7 @@ CHECKS["C11"] = {
              "set_backend calls set(a); O1; set(b); O2; [collect O1]; set(c); O3 over {numpy/64b, numpy/32b, jax/64b}^3: every live old object is "
              "proved equal to the fresh O3 attribute by attribute (values; for derived tensors also the precision / backend tag, so a tensor that was not "
              "re-derived is recognised), expected_data and logpdf at a symbolic parameter point are equal and are tensors of the current backend that "
-             "consumed no tensor of an earlier backend, nothing raises and collected objects are not called."),
+             "consumed no tensor of an earlier backend, nothing raises and collected objects are not called. Backend life cycle: constructing a backend object makes no library call; _setup configures library-global state only for pytorch (default dtype == its float type) - results cannot depend on which backend objects were constructed or on switches made earlier through such state."),
     "note": ("jax / pytorch / tensorflow are represented by the shared tensor-op contracts with their own tag (their array types and the jax jit cache are "
              "external); weak references and garbage collection are a model driven by the harness; histories bounded to three switches; inference equality "
              "follows from equal expected_data / logpdf; the replay runs random histories on the real installed backends"),
@@ -311,7 +311,7 @@ CHECKS["C04"] = {
              "Normal / Independent evaluate the same primitives with (value, rate) / (value, loc, scale), Independent sums over the last axis. (D) astensor of "
              "every backend x precision x input kind against a dtype-tracking model of the conversion functions: the result has the backend's dtype and "
              "the value never passes through a narrower float type. NOT decided: the accuracy claims of the statement (few ulps, far tails, lam = 0, large "
-             "counts, 32b tolerances) - floating-point behaviour of external special functions."),
+             "counts, 32b tolerances) - floating-point behaviour of external special functions. Backend life cycle: constructing a backend object makes no library call; _setup configures library-global state only for pytorch (default dtype == its float type) - results cannot depend on which backend objects were constructed or on switches made earlier through such state."),
     "note": "library special functions and distributions are uninterpreted (trusted); floats as reals; the dtype model of tf.convert_to_tensor / np.asarray / torch.as_tensor is assumed",
     "technique": "contract-based deductive verification: symbolic execution of the backend primitives with uninterpreted library functions, formula and forwarding postconditions discharged by z3; dtype-path contract of astensor; native replay against scipy",
 }
